@@ -129,6 +129,20 @@ def stress_module():
             ('local.get', 1), ('i32.const', 1), ('i32.sub',), ('local.set', 1), ('br', 0)])])]
         m.funcs.append(Func(m.type_index((I32, I32), ()), [t], body))
         m.exports.append((('incr_%d' % fi).encode(), 'func', len(m.funcs) - 1))
+        # lock(addr, n): n times { spin on cmpxchg(addr, 0 -> 1); plain 64-bit counter at addr+64 += 1; atomic store 0 }:
+        # a compare-exchange that reports success without having stored lets two threads into the critical section
+        zero = ('%s.const' % t, 0)
+        body = [('block', None, [('loop', None, [
+            ('local.get', 1), ('i32.eqz',), ('br_if', 1),
+            ('block', None, [('loop', None, [
+                ('local.get', 0), zero, one, (n, al, 0), zero, ('%s.ne' % t,), ('br_if', 0)])]),
+            ('local.get', 0), ('local.get', 0), ('i64.load', 3, 64), ('i64.const', 1), ('i64.add',), ('i64.store', 3, 64),
+            ('local.get', 0), zero, (sn, al, 0),
+            ('local.get', 1), ('i32.const', 1), ('i32.sub',), ('local.set', 1), ('br', 0)])])]
+        m.funcs.append(Func(m.type_index((I32, I32), ()), [], body))
+        m.exports.append((('lock_%d' % fi).encode(), 'func', len(m.funcs) - 1))
+    m.funcs.append(Func(m.type_index((I32,), (I64,)), [], [('local.get', 0), ('i64.load', 3, 64)]))
+    m.exports.append((b'ctr', 'func', len(m.funcs) - 1))
     wasm.validate(m)
     return m
 
@@ -155,6 +169,10 @@ static pthread_barrier_t bar;
     for fi in range(len(SHAPES)):
         out.append('  case %d: m_incr_%d(i, ADDR, n); return;' % (fi, fi))
     out.append('  } }')
+    out.append('static void do_lock(mInstance* i, U32 n) { switch (FL) {')
+    for fi in range(len(SHAPES)):
+        out.append('  case %d: m_lock_%d(i, ADDR, n); return;' % (fi, fi))
+    out.append('  } }')
     out.append('static U64 do_load(mInstance* i) { switch (FL) {')
     for fi in range(len(SHAPES)):
         out.append('  case %d: return (U64)m_load_%d(i, ADDR);' % (fi, fi))
@@ -176,6 +194,7 @@ static void* worker(void* p) {
         case 4: w->olds[k] = do_or(w->inst, (U64)1 << ((w->tid * N + k) % (FL_BITS))); break;
         case 5: w->olds[k] = do_and(w->inst, ~((U64)1 << ((w->tid * N + k) % (FL_BITS)))); break;
         case 6: w->olds[k] = do_xor(w->inst, (U64)1 << (w->tid % (FL_BITS))); break;
+        case 7: do_lock(w->inst, 1); break;
         }
     }
     return NULL;
@@ -198,8 +217,9 @@ int main(int argc, char** argv) {
     for (t = 0; t < T; t++) pthread_join(th[t], NULL);
     for (t = 0; t < T; t++) { printf("T %d", t); for (k = 0; k < N; k++) printf(" %llx", (unsigned long long)ws[t].olds[k]); printf("\n"); }
     printf("F %llx\n", (unsigned long long)do_load(&root));
+    printf("C %llu\n", (unsigned long long)m_ctr(&root, ADDR));
     /* neighbouring cells must be untouched */
-    { wasmMemory* mem = m_memory(&root); int i; int dirty = 0; for (i = 0; i < 256; i++) if ((i < 64 || i >= 72) && mem->data[i]) dirty = 1; printf("D %d\n", dirty); }
+    { wasmMemory* mem = m_memory(&root); int i; int dirty = 0; for (i = 0; i < 256; i++) if ((i < 64 || i >= 72) && !(i >= 128 && i < 136) && mem->data[i]) dirty = 1; printf("D %d\n", dirty); }
     return 0;
 }
 ''')
@@ -229,7 +249,7 @@ def stress_binary(build):
     return _bin[build]
 
 
-MODES = ['add', 'sub', 'xchg', 'cas-incr', 'or', 'and', 'xor']
+MODES = ['add', 'sub', 'xchg', 'cas-incr', 'or', 'and', 'xor', 'cas-lock']
 
 
 def run_stress(case):
@@ -254,6 +274,7 @@ def run_stress(case):
     olds = {}
     final = None
     dirty = 0
+    counter = None
     for ln in r.stdout.decode().splitlines():
         p = ln.split()
         if p[0] == 'T':
@@ -262,6 +283,8 @@ def run_stress(case):
             final = int(p[1], 16)
         elif p[0] == 'D':
             dirty = int(p[1])
+        elif p[0] == 'C':
+            counter = int(p[1])
     allolds = [o for t in sorted(olds) for o in olds[t]]
     total = T * N
     name = MODES[mode]
@@ -307,6 +330,11 @@ def run_stress(case):
                 want &= ~(1 << ((t * N + k) % bits))
         if final != want & M:
             return 'lost-update', 'and flavour %d: final %x expected %x' % (fl, final, want & M), inter
+    elif mode == 7:
+        inter = True
+        if counter != total or final != 0:
+            return 'cmpxchg-lock', ('compare-exchange spin lock, flavour %d T=%d N=%d: %d of %d increments of the protected counter '
+                                    'survived (lock word %x): a compare-exchange reported success without storing' % (fl, T, N, counter, total, final)), inter
     else:
         want = init
         for t in range(T):
@@ -323,7 +351,7 @@ def stress_task(wid, seed, params):
     for ci in range(params['ncases']):
         ch = Chooser(seed * 1000003 + ci)
         fl = (wid + ci) % len(SHAPES)
-        mode = (wid // 7 + ci // 7 + ch.below(7)) % 7
+        mode = (wid // 7 + ci // 7 + ch.below(8)) % 8
         bits = SHAPES[fl][2] * 8
         T = ch.pick((2, 3, 4, 8))
         cap = (1 << bits) - 2
@@ -334,8 +362,10 @@ def stress_task(wid, seed, params):
         if 'tsan' in build:
             N = min(N, 5000)
         case = {'kind': 'stress', 'mode': mode, 'flavour': fl, 'T': T, 'N': N, 'build': build, 'init': ch.bits(64) if mode in (2, 4, 6) else ch.below(3)}
-        if mode == 2:
+        if mode in (2, 7):
             case['init'] = 0
+        if mode == 7:
+            case['N'] = N = ch.pick((2000, 20000, 100000)) if 'tsan' not in build else 2000
         try:
             sig, msg, inter = run_stress(case)
         except cexec.InfraError as e:
